@@ -38,6 +38,8 @@ impl<'a, 'b> GeneratorState<'a> {
                 if *op == Operation::TernaryCond2 {
                     if self.acc_in_use {
                         self.sasm(PHA)?;
+                        // The accumulator is saved: it must not be pushed again by the condition
+                        self.acc_in_use = false;
                         if self.tmp_in_use {
                             return Err(self
                                 .compiler_state
@@ -58,6 +60,7 @@ impl<'a, 'b> GeneratorState<'a> {
                         self.asm(STA, &ExprType::Tmp(false), pos, false)?;
                         self.tmp_in_use = true;
                         self.sasm(PLA)?;
+                        self.acc_in_use = true;
                         if la != ra {
                             return Err(self.compiler_state.syntax_error(
                                 "Different alternative types in ?: expression",
@@ -117,6 +120,8 @@ impl<'a, 'b> GeneratorState<'a> {
     ) -> Result<ExprType, Error> {
         if self.acc_in_use {
             self.sasm(PHA)?;
+            // The accumulator is saved: it must not be pushed again by the condition
+            self.acc_in_use = false;
             if self.tmp_in_use {
                 return Err(self
                     .compiler_state
@@ -134,6 +139,7 @@ impl<'a, 'b> GeneratorState<'a> {
             self.asm(STA, &ExprType::Tmp(false), pos, false)?;
             self.tmp_in_use = true;
             self.sasm(PLA)?;
+            self.acc_in_use = true;
             Ok(ExprType::Tmp(false))
         } else {
             self.local_label_counter_if += 1;
